@@ -61,6 +61,8 @@ def try_call(it, f, args, kwargs, node):
     import spec.p2p as sp
     if f is sp.FakeSocket:
         return GhostSocket(it, args[0])
+    if f is sp.node_iteration:
+        return node_iteration(it, args, kwargs, node)
     if f is _time.time:
         it.ctx.notes.setdefault("env", set()).add("A-clock")
         return GhostClockValue(it)
@@ -89,3 +91,124 @@ class GhostClockValue:
         t = it.ctx.fresh_int("now")
         it.ctx.assume(z3.And(t.z >= 0, t.z < 2 ** 63))
         self.as_int = t
+
+
+# ------------------------------------------------------------------------------------------- node (C18)
+
+class GhostDeque(E.GhostObj):
+    """collections.deque as a structural list; with rely on, another thread's append may land after any of this
+    thread's operations (A-gil: one method call on the deque is atomic)."""
+
+    def __init__(self, items, rely):
+        self.items = list(items)
+        self.rely = rely
+        self.foreign = 0
+
+    def _interfere(self, it):
+        if self.rely and self.foreign < 1 and it.ctx.fork(2) == 1:
+            self.foreign += 1
+            other = ("other-peer", b"inv", it.ctx.fresh_int("foreign_msg"))
+            self.items.append(other)
+            it.ctx.ghost.setdefault("rely_appended", []).append(other)
+
+    def getattr(self, it, name):
+        if name == "append":
+            def f(it2, args, kwargs, node):
+                self.items.append(args[0])
+                self._interfere(it2)
+            return E.GhostFn(f)
+        if name == "pop":
+            def f(it2, args, kwargs, node):
+                if not self.items:
+                    it2.raise_(IndexError, node)
+                v = self.items.pop()
+                self._interfere(it2)
+                return v
+            return E.GhostFn(f)
+        if name == "popleft":
+            def f(it2, args, kwargs, node):
+                if not self.items:
+                    it2.raise_(IndexError, node)
+                v = self.items.pop(0)
+                self._interfere(it2)
+                return v
+            return E.GhostFn(f)
+        raise Unsupported(f"deque.{name}")
+
+
+class GhostSendSocket(E.GhostObj):
+    def __init__(self, peer):
+        self.peer = peer
+        self.sent = []
+
+    def getattr(self, it, name):
+        if name == "sendall":
+            def f(it2, args, kwargs, node):
+                self.sent.append(args[0])
+            return E.GhostFn(f)
+        if name == "close":
+            return E.GhostFn(lambda it2, a, k, n: None)
+        raise Unsupported(f"socket.{name}")
+
+
+class GhostThread(E.GhostObj):
+    """exit_event.is_set() is False exactly `iterations` times"""
+
+    def __init__(self, iterations):
+        self.left = iterations
+
+    def getattr(self, it, name):
+        if name == "exit_event":
+            return self
+        if name == "is_set":
+            def f(it2, args, kwargs, node):
+                self.left -= 1
+                return self.left < 0
+            return E.GhostFn(f)
+        raise Unsupported(f"thread.{name}")
+
+
+class GhostRecord(E.GhostObj):
+    """`self` of a repository class: fields are ghost state, methods are the class's real functions."""
+
+    def __init__(self, cls, fields):
+        self.cls = cls
+        self.fields = fields
+
+    def getattr(self, it, name):
+        if name in self.fields:
+            return self.fields[name]
+        import types
+        f = getattr(self.cls, name, None)
+        if isinstance(f, types.FunctionType):
+            me = self
+            return E.GhostFn(lambda it2, args, kwargs, node: it2.call(f, [me] + list(args), kwargs, node))
+        it.raise_(AttributeError, None)
+
+    def setattr(self, it, name, v):
+        self.fields[name] = v
+
+
+def node_iteration(it, args, kwargs, node):
+    import bits.p2p as p2p
+    peer_no, command, payload, queue_before = args[:4]
+    rely = bool(it.ctx.opts["thm"].options.get("rely"))
+    dq = GhostDeque(queue_before, rely)
+    socks = {0: GhostSendSocket(0), 1: GhostSendSocket(1)}
+    rec = GhostRecord(p2p.Node, {
+        "_msg_queue": dq, "_registered_commands_to_handle": [b"version", b"verack", b"ping"],
+        "_peer_sockets": socks, "_peer_threads": {0: GhostThread(1), 1: GhostThread(1)}, "_peer_data": {0: {}, 1: {}},
+    })
+    it.ctx.ghost["node_inbox"] = (p2p.MAGIC_START_BYTES, command, payload)
+    it.ctx.notes.setdefault("env", set()).add("A-gil")
+    it.call(p2p.Node.recv_loop, [rec, peer_no], {}, node)
+    return list(dq.items), {i: list(s.sent) for i, s in socks.items()}, rec.fields["_peer_data"]
+
+
+def recv_msg_from_inbox(it, f, args, kwargs, node):
+    """recv_msg by its contract C17.recv_msg: a complete, well-formed frame is returned as (magic, command, payload)."""
+    box = it.ctx.ghost.get("node_inbox")
+    if box is None:
+        return NotImplemented
+    it.ctx.notes["assumed_contracts"].add("C17.recv_msg (complete frame)")
+    return box
